@@ -97,7 +97,9 @@ def smallReqs {α} (script : Nat → List Resp) : Nat → List α → List (Req 
   | _, [] => []
   | i, p :: rest =>
     let a := attempts (script i)
-    let r : Req α := { big := false, part := Int.tmod i Facts.C32.partsLimit, total := 0, orUnknown := false,
+    let r : Req α := { big := false,
+                       part := if Facts.C32.smallPartIsModLimit then Int.tmod i Facts.C32.partsLimit else i,
+                       total := 0, orUnknown := false,
                        payload := p, attempts := a.1, saved := a.2 }
     if a.2 then r :: smallReqs script (i + 1) rest else [r]
 
@@ -112,7 +114,9 @@ def bigReqs {α} (script : Nat → List Resp) (totalParts : Int) (n : Nat) (last
     let unknown := decide (totalParts = -1)
     let isLast := rest.isEmpty
     let tot : Int := if unknown then (if lastShort then n else -1) else totalParts
-    let r : Req α := { big := true, part := i, total := tot,
+    let r : Req α := { big := true,
+                       part := if Facts.C32.bigPartIsCounter then i else Int.tmod i Facts.C32.partsLimit,
+                       total := tot,
                        orUnknown := unknown && lastShort && !isLast,
                        payload := p, attempts := a.1, saved := a.2 }
     r :: bigReqs script totalParts n lastShort (i + 1) rest
@@ -130,9 +134,9 @@ structure Run (α : Type) where
 
 /-- `Uploader.Upload` over the list of parts read from the source.
 `lastShort` = the source length is not a multiple of the part size (the last `ReadFull` returned
-`ErrUnexpectedEOF`); `digest` = MD5 of everything read. -/
+`ErrUnexpectedEOF`); `digestOf` = the MD5 the small loop ends up with, given its request log. -/
 def uploadParts {α} (c : Cfg) (script : Nat → List Resp) (partsOf : Nat → List α) (lastShort : Nat → Bool)
-    (digest : Bytes) : Run α :=
+    (digestOf : List (Req α) → Bytes) : Run α :=
   match prepare c with
   | .error e => { reqs := [], outcome := .error e }
   | .ok (ps, big, tp) =>
@@ -142,15 +146,23 @@ def uploadParts {α} (c : Cfg) (script : Nat → List Resp) (partsOf : Nat → L
       { reqs := rs, outcome := if rs.all (·.saved) then .file true parts.length none else .error .rpc }
     else
       let rs := smallReqs script 0 parts
-      { reqs := rs, outcome := if rs.all (·.saved) then .file false rs.length (some digest) else .error .rpc }
+      { reqs := rs, outcome := if rs.all (·.saved) then .file false rs.length (some (digestOf rs)) else .error .rpc }
+
+/-- What the MD5 of a small upload is computed over: everything read from the source, once
+(`io.TeeReader` around the source: `md5ViaTeeReader`); if the hash were instead fed inside the retry loop
+it would see every part once per attempt. -/
+def digestInput (src : Bytes) (rs : List (Req Bytes)) : Bytes :=
+  if Facts.C32.md5ViaTeeReader then src
+  else (rs.map (fun q => (List.replicate q.attempts q.payload).flatten)).flatten
 
 /-- The upload of a concrete byte source. -/
 def upload (md5 : Bytes → Bytes) (c : Cfg) (script : Nat → List Resp) (src : Bytes) : Run Bytes :=
-  uploadParts c script (fun ps => chunks ps src) (fun ps => decide (src.length % ps ≠ 0)) (md5 src)
+  uploadParts c script (fun ps => chunks ps src) (fun ps => decide (src.length % ps ≠ 0))
+    (fun rs => md5 (digestInput src rs))
 
 /-- The upload plan of a source of `n` bytes (payload = `(offset, length)`; the digest is supplied). -/
 def uploadPlan (c : Cfg) (script : Nat → List Resp) (n : Nat) (digest : Bytes) : Run (Nat × Nat) :=
-  uploadParts c script (fun ps => ranges ps n) (fun ps => decide (n % ps ≠ 0)) digest
+  uploadParts c script (fun ps => ranges ps n) (fun ps => decide (n % ps ≠ 0)) (fun _ => digest)
 
 /-- The server side: a part is stored when its request is answered `true`. -/
 def store (evs : List (Nat × Bytes)) (id : Nat) : Option Bytes :=
